@@ -24,7 +24,7 @@ META = {
                     "tolerance: max(5e-6, 1e-9 |p|); 5e-6 max(1,|p|) if an input rotation vector lies in (0, 2e-6)"],
 }
 REQUIRED_CLAUSES = ["ctor.list6", "ctor.arr6", "ctor.arr6x1", "ctor.list3", "ctor.arr3", "ctor.rpy6", "ctor.rpy3", "ctor.pair_rpy", "ctor.list7",
-                    "ctor.arr7", "ctor.mat4", "ctor.pair", "ctor.tm", "ctor.objarr", "quat.roundtrip", "matmul", "inv",
+                    "ctor.arr7", "ctor.mat4", "ctor.columns", "ctor.pair", "ctor.tm", "ctor.objarr", "quat.roundtrip", "matmul", "inv",
                     "assoc", "matmul.ndarray", "l2g", "g2l", "l2g.g2l.inverse"]
 
 
@@ -91,6 +91,11 @@ def check_case(case, ctx, tm, fsr):
         ("ctor.list7", lambda: tm([float(x) for x in p] + [float(x) for x in q]), A),
         ("ctor.arr7", lambda: tm(np.concatenate([p, q])), A),
         ("ctor.mat4", lambda: tm(A.copy()), A),
+        ("ctor.columns", lambda: tm(w.reshape((3, 1)).copy()), se3.rp(Ra, np.zeros(3))),
+        ("ctor.columns", lambda: tm(np.concatenate([p, q]).reshape((7, 1))), A),
+        ("ctor.columns", lambda: tm(np.asfortranarray(A.copy())), A),
+        ("ctor.columns", lambda: tm([np.float64(x) for x in ta]), A),
+        ("ctor.columns", lambda: tm([int(x) if float(x).is_integer() else float(x) for x in ta]), A),
         ("ctor.pair", lambda: tm([[float(x) for x in p], [float(x) for x in w]]), A),
     ]
     for clause, fn, want in forms:
